@@ -22,7 +22,9 @@ RULE = ('target = synthetic two-chain complex (complexgen: 3-12 residues per cha
         'svd and quaternion; export on/off with file-backed databases (names ending in letters of ".pdb" included) in a fresh working directory; '
         'databases built from files or from line lists; mobile/target passed as database objects or as file names. Error stream: name given with '
         'only_backbone, unknown method, empty selection on one or both sides, disjoint selections, export with a database built from lines. '
-        'Few-atom selections (dedicated family, every case with both methods): exactly three atoms (three backbone atoms of one residue; one atom of three '
+        'Point mutants: a residue with the same chain and number but another residue name in one of the two structures (either side), its atoms '
+        'displaced by 2-4 A relative to the rest, equal and unequal selection sizes, both methods, only_backbone on/off -- its atoms are not shared atoms '
+        '(identity = chain, residue number, residue NAME, atom name) and must not enter the fit. Few-atom selections (dedicated family, every case with both methods): exactly three atoms (three backbone atoms of one residue; one atom of three '
         'residues) = a plane, where the cross-covariance is singular and the reflection guard of the kernel decides, and exactly two atoms (a line), '
         'on exactly displaced, displaced-and-rounded and jittered copies; plus one-atom selections. Observed: mobile.get("*") and target.get("*") before/after, the matrix returned by '
         'get_rotation_matrix (wrapped, not modified), the files that appeared in the working directory. A case is non-trivial when distinct by '
@@ -143,6 +145,7 @@ def cases(ctx):
                           source=source, by_name=(source == 'file' and rng.random() < 0.2), names=rng.choice(NAMES), sel_label=label,
                           exact_copy=(fam == 'displaced_exact')))
     out += few_atom_cases(ctx, ctx.scale(8, 40))
+    out += point_mutant_cases(ctx, ctx.scale(12, 60))
     # degenerate selections
     for k in range(ctx.scale(3, 12)):
         target, mobile = make_pair(rng, rng.choice(['jitter', 'displaced', 'del_mobile']))
@@ -163,6 +166,45 @@ def cases(ctx):
         out.append(mk([l for l in T if l[21] == ch[0]], M, {'chainID': [ch[1]]}, 'empty-target', expect_error=True))
         out.append(mk([l for l in T if l[21] == ch[0]], [l for l in M if l[21] == ch[1]], {}, 'disjoint', expect_error=True))
         out.append(mk(T, M, {}, 'export-from-lines', export=True, source='lines', expect_error=True))
+    return out
+
+
+def point_mutant_pair(rng):
+    """target / mobile that differ by a point mutation: one residue keeps chain and number but carries another residue name in one of the two
+    structures, and its atoms sit elsewhere (shifted by ~4 A relative to the rest); optionally another residue is missing on one side (unequal
+    selection sizes); the mobile is then moved rigidly.  The mutated residue's atoms are NOT shared atoms (the residue name differs)."""
+    base = cg.make_complex(rng, hydrogens=rng.random() < 0.3)
+    target, mobile = base.copy(), base.copy()
+    side = rng.choice(['mobile', 'target'])
+    cx = mobile if side == 'mobile' else target
+    for _ in range(rng.choice([1, 1, 2])):
+        r = rng.choice(cx.residues)
+        r['resName'] = rng.choice([n for n in cg.RESN + ['PHE', 'LYS'] if n != r['resName']])
+        d = [rng.choice([-1, 1]) * rng.uniform(2.0, 4.0) for _ in range(3)]
+        r['atoms'] = [(n, e, tuple(round(v + dv, 3) for v, dv in zip(xyz, d))) for (n, e, xyz) in r['atoms']]
+    sizes = rng.choice(['equal', 'equal', 'unequal'])
+    if sizes == 'unequal':
+        other = rng.choice([mobile, target])
+        cand = [i for i, r in enumerate(other.residues) if r['resName'] in cg.RESN]
+        if len(cand) > 3:
+            del other.residues[rng.choice(cand)]
+    mobile = cg.rigid_move(rng, mobile, exact=rng.random() < 0.5)
+    if rng.random() < 0.3:
+        mobile = cg.jitter(rng, mobile, 0.05)
+    return target, mobile, side, sizes
+
+
+def point_mutant_cases(ctx, n, family='point_mutant'):
+    rng = ctx.rng
+    out = []
+    for k in range(n):
+        target, mobile, side, sizes = point_mutant_pair(rng)
+        T, M = target.lines(), mobile.lines()
+        ob = (k % 2 == 0)
+        sel, label = rng.choice([({}, 'all'), ({}, 'all'), ({'chainID': [rng.choice(target.chains())]}, 'chain')])
+        for method in ('svd', 'quaternion'):
+            out.append(mk(T, M, sel, family, only_backbone=ob, method=method, source=rng.choice(['file', 'lines']),
+                          sel_label=f'{label}; mutation on the {side} side; {sizes} sizes'))
     return out
 
 
@@ -220,6 +262,7 @@ def few_atom_cases(ctx, n_complexes, family='few-atoms'):
 def search_cases(ctx):
     rng = ctx.rng
     out = few_atom_cases(ctx, 12, family='search-few-atoms')
+    out += point_mutant_cases(ctx, 24, family='search-point_mutant')
     for fam in ('del_both', 'window', 'permuted', 'displaced_exact', 'del_mobile', 'del_target'):
         for k in range(12):
             target, mobile = make_pair(rng, fam)
